@@ -1,11 +1,15 @@
 (* C09 -- Lowering / restructuring passes preserve behaviour and meet their
    postconditions.  Only statements + `exact`; proofs in Pass/RewriteSound.v
    (generic lemma), Pass/GateSound.v + Pass/LowerSound.v (rule lemmas),
-   Pass/LowerPost.v (postconditions), Pass/LowerTheorems.v (assembly).
+   Pass/LowerPost.v + Pass/FanoutPost.v (postconditions), Pass/LowerTheorems.v
+   (assembly), Pass/LowerCompose.v (orderings), Pass/Stable.v + Pass/DcoSound.v +
+   Pass/FanoutSound.v (graph-edit passes).  Decidable hypotheses: Pass/LowerHyps.v
+   (evaluated by the harness on every design).
    The model is Pass/Lower.v; the gate right-hand sides come from
    Gen/LowerRules.v, regenerated from pyrtl/passes.py on every run. *)
-From PyRTL Require Import Pass.Lower Pass.RewriteSound Pass.GateSound Pass.LowerSound Pass.LowerPost
-  Pass.LowerTheorems Gen.LowerRules Netlist.Sanity.
+From PyRTL Require Import Pass.Lower Pass.LowerHyps Pass.RewriteSound Pass.GateSound Pass.LowerSound
+  Pass.LowerPost Pass.LowerTheorems Pass.LowerCompose Pass.Stable Pass.FanoutPost Pass.DcoSound
+  Pass.FanoutSound Gen.LowerRules Netlist.Sanity.
 
 (* ===== (2) the generic lemma ===== *)
 (* A rule that, net by net, yields a sub-netlist computing on the old
@@ -113,18 +117,84 @@ Theorem C09_fanout_tree_leaves : forall fuel w n next tn lv nx,
 Proof. exact make_tree_leaves. Qed.
 Print Assumptions C09_fanout_tree_leaves.
 
-(* Full statements NOT proved here (checked by correspondence + census on every
-   run instead): the whole-netlist fan-out bound, and behaviour preservation of
-   the two graph-edit passes (these need the in-range invariant of valuations,
-   which the rule-based passes do not). *)
-Definition C09_two_way_fanout_post_full_statement : Prop :=
-  forall nl, sanity_block nl = true -> post_two_way_fanout (two_way_fanout nl) = true.
-Definition C09_graph_edits_preserve_full_statement : Prop :=
-  forall nl, sanity_block nl = true ->
-    preserved nl (two_way_fanout nl)
-    /\ forall dflt st inss,
-         Forall2 (fun v v' => forall x, In x (wires (direct_connect_outputs nl)) -> v (wname x) = v' (wname x))
-                 (fst (run nl dflt st inss)) (fst (run (direct_connect_outputs nl) dflt st inss)).
+(* two_way_fanout, the whole netlist: no non-Output wire is read by more than two
+   argument positions (accounting over the table of pending trees + the tree lemma) *)
+Theorem C09_two_way_fanout_post : forall nl,
+  sanity_block nl = true -> post_two_way_fanout (two_way_fanout nl) = true.
+Proof. exact two_way_fanout_post_sane. Qed.
+Print Assumptions C09_two_way_fanout_post.
+
+Theorem C09_two_way_fanout_post_unique_names : forall nl next,
+  fresh nl <= next -> NoDup (map wname (wires nl)) ->
+  post_two_way_fanout (two_way_fanout_at next nl) = true.
+Proof. exact two_way_fanout_post_at. Qed.
+Print Assumptions C09_two_way_fanout_post_unique_names.
+
+(* ===== pass ORDERINGS: every sequence of the four rule-based passes =====
+   [lower_okb] (decidable: gate nets have two equal-width arguments and a
+   destination no wider; concat destinations no wider than the sum; widths >= 0;
+   implied by sanity_block) is re-established by each rule-based pass, so any
+   sequence, in any order and of any length, preserves behaviour. *)
+Theorem C09_rule_pass_keeps_hypotheses : forall p nl, lower_ok nl -> lower_ok (run_rpass p nl).
+Proof. exact rpass_lower_ok. Qed.
+Print Assumptions C09_rule_pass_keeps_hypotheses.
+
+Theorem C09_rule_pass_sequences_preserve : forall ps nl,
+  lower_okb nl = true -> preserved nl (run_rpasses ps nl).
+Proof. exact rule_pass_sequences_preserve_b. Qed.
+Print Assumptions C09_rule_pass_sequences_preserve.
+
+Theorem C09_rule_pass_sequences_preserve_sane : forall ps nl,
+  sanity_block nl = true -> preserved nl (run_rpasses ps nl).
+Proof. exact rule_pass_sequences_preserve_sane. Qed.
+Print Assumptions C09_rule_pass_sequences_preserve_sane.
+
+(* ===== the graph-edit passes preserve behaviour =====
+   Shared tool: on a sequentially ordered netlist ([seq_okb]: legal arities,
+   single driver, written before read) Sem.comb computes THE valuation that every
+   combinational net leaves unchanged and that extends the cycle-start values. *)
+Theorem C09_comb_stable : forall nl st ns v0, seq_okb ns = true ->
+  let v := fold_left (exec_spec nl st) ns v0 in
+  stable nl st ns v /\ (forall w, ~ In w (cdests ns) -> v w = v0 w).
+Proof. exact comb_stable. Qed.
+Print Assumptions C09_comb_stable.
+
+Theorem C09_stable_unique : forall nl st ns v1 v2, seq_okb ns = true ->
+  stable nl st ns v1 -> stable nl st ns v2 ->
+  (forall w, ~ In w (cdests ns) -> In w (cargs ns) -> v1 w = v2 w) ->
+  forall w, In w (cdests ns) -> v1 w = v2 w.
+Proof. exact stable_unique. Qed.
+Print Assumptions C09_stable_unique.
+
+(* direct_connect_outputs (the whole loop): every wire the result still declares
+   -- every Input, Output, Register -- has the same value on every cycle of every
+   input sequence from every state; registers and memories stay equal.  No range
+   assumption.  [dco_okb]: at every changing pass the netlist and the pass result
+   are sequentially ordered, no net reads an Output, non-combinational nets have
+   legal arity and registers are not combinationally driven. *)
+Theorem C09_direct_connect_outputs_preserves : forall nl,
+  dco_okb nl = true -> preservedW nl (direct_connect_outputs nl).
+Proof. exact direct_connect_outputs_preserves. Qed.
+Print Assumptions C09_direct_connect_outputs_preserves.
+
+(* two_way_fanout: every old wire has the same value on every cycle, for every
+   run whose cycle-start values (inputs, registers, constants, default) are in
+   range.  [fanout_okb]: the netlist and the result are sequentially ordered and
+   the table of trees is consistent (every tree net is a 'w' net between wires of
+   one tree of the root's width; new wires that are read are driven). *)
+Theorem C09_two_way_fanout_preserves : forall nl,
+  fanout_okb (fresh nl) nl = true ->
+  forall dflt st inss, legal_run nl dflt st inss ->
+    Forall2 (same_on_wires nl) (fst (run nl dflt st inss)) (fst (run (two_way_fanout nl) dflt st inss))
+    /\ st_eq (snd (run nl dflt st inss)) (snd (run (two_way_fanout nl) dflt st inss)).
+Proof. exact two_way_fanout_preserves. Qed.
+Print Assumptions C09_two_way_fanout_preserves.
+
+(* legal_run follows from in-range constants/default, inputs and initial registers *)
+Theorem C09_legal_run_of : forall nl dflt, legal_static nl dflt ->
+  forall inss st, Forall (legal_ins nl) inss -> legal_regs nl (sregs st) -> legal_run nl dflt st inss.
+Proof. exact legal_run_of. Qed.
+Print Assumptions C09_legal_run_of.
 
 (* ===== non-vacuity: a sane design exercising every rule ===== *)
 Definition ex_nl : netlist :=
@@ -143,7 +213,32 @@ Definition ex_run (nl : netlist) : list (list Z) :=
                     [(fun w => if w =? 1 then 5 else 3); (fun w => if w =? 1 then 7 else 1)])).
 
 Example C09_example_hypotheses :
-  sanity_block ex_nl = true /\ pre_nand_synth ex_nl = true /\ pre_and_inverter_synth ex_nl = true.
+  sanity_block ex_nl = true /\ pre_nand_synth ex_nl = true /\ pre_and_inverter_synth ex_nl = true
+  /\ lower_okb ex_nl = true /\ dco_okb ex_nl = true /\ fanout_okb (fresh ex_nl) ex_nl = true
+  /\ dco_okb dco_chain_witness = true.
+Proof. vm_compute. repeat split; reflexivity. Qed.
+
+(* the semantic hypothesis of C09_two_way_fanout_preserves on the example run *)
+Definition ex_ins : list (wid -> Z) :=
+  [(fun w => if w =? 1 then 5 else 3); (fun w => if w =? 1 then 7 else 1)].
+
+Example C09_example_legal_run : legal_run ex_nl 0 (init_state ex_nl 0 [] []) ex_ins.
+Proof.
+  apply legal_run_of.
+  - intros x Hx. cbn [wires ex_nl] in Hx.
+    repeat (destruct Hx as [<-|Hx]; [vm_compute; first [reflexivity|exact I]|]). destruct Hx.
+  - repeat constructor; intros x Hx Hk; cbn [wires ex_nl] in Hx;
+      repeat (destruct Hx as [<-|Hx]; [first [discriminate Hk|vm_compute; reflexivity]|]); destruct Hx.
+  - intros x Hx. cbn [wires ex_nl] in Hx.
+    repeat (destruct Hx as [<-|Hx]; [vm_compute; reflexivity|]). destruct Hx.
+Qed.
+
+(* a pass sequence in both orders, and a three-pass sequence *)
+Example C09_example_orderings :
+  ex_run (run_rpasses [PNand; PSelect] ex_nl) = ex_run ex_nl
+  /\ ex_run (run_rpasses [PSelect; PNand] ex_nl) = ex_run ex_nl
+  /\ ex_run (run_rpasses [PConcat; PAig; PSelect] ex_nl) = ex_run ex_nl
+  /\ lower_okb (run_rpasses [PConcat; PAig; PSelect] ex_nl) = true.
 Proof. vm_compute. repeat split; reflexivity. Qed.
 
 Example C09_example_traces :
